@@ -95,6 +95,11 @@ def generate(tier, rng):
                     m = int(np.prod(shp)) if shp else 1
                     cases.append(dict(stream="exact" if shp == rshape else "malformed", uni=u2, arr=tarr,
                                       steps=[dict(op="set", key=key, rhs=dict(kind="nd", shape=shp, values=[500 + j for j in range(m)]), mutate=True)]))
+                # the same numbers handed over in an ndarray subclass or another memory layout: copied all the same
+                m = int(np.prod(rshape)) if rshape else 1
+                for sub in ("masked", "custom", "memory"):
+                    cases.append(dict(stream="exact", uni=u2, arr=tarr,
+                                      steps=[dict(op="set", key=key, rhs=dict(kind="nd", shape=rshape, values=[700 + j for j in range(m)], subclass=sub), mutate=True)]))
             # histories of overlapping assignments
             if tdims:
                 for h in range(2 if tier == "quick" else 6):
